@@ -635,6 +635,7 @@ func (rw *rewriter) goStmt(g *ast.GoStmt) ast.Stmt {
 func (rw *rewriter) rangeStmt(r *ast.RangeStmt) ([]ast.Stmt, ast.Stmt) {
 	t := rw.typeOf(r.X)
 	if t == nil {
+		r.X = rw.expr(r.X)
 		rw.block(r.Body)
 		return nil, r
 	}
@@ -664,17 +665,19 @@ func (rw *rewriter) rangeStmt(r *ast.RangeStmt) ([]ast.Stmt, ast.Stmt) {
 		return nil, &ast.ForStmt{Body: &ast.BlockStmt{List: body}}
 	case *types.Map:
 		rw.block(r.Body)
-		if rw.opt.NoMapOrder || !orderedKey(u.Key()) || !pure(r.X) || r.Key == nil {
-			return nil, r
-		}
-		if r.Tok != token.DEFINE {
+		if rw.opt.NoMapOrder || !orderedKey(u.Key()) || !pure(r.X) || r.Key == nil || r.Tok != token.DEFINE {
+			// left as a plain range; the ranged-over expression may still contain
+			// channel operations (`for k, v := range <-ch`)
+			r.X = rw.expr(r.X)
 			return nil, r
 		}
 		if id, ok := r.Key.(*ast.Ident); ok && id.Name == "_" {
 			if r.Value == nil {
+				r.X = rw.expr(r.X)
 				return nil, r
 			}
 			if vid, ok := r.Value.(*ast.Ident); ok && vid.Name == "_" {
+				r.X = rw.expr(r.X)
 				return nil, r
 			}
 			// the key is not named: give it a name so the value can be looked up
